@@ -37,7 +37,7 @@ COMPONENTS = {
 }
 EXPECTED_PROBES = ["writer_to_parquet", "writer_pack", "ge_11_partitions", "read_list",
                    "read_list_unsorted", "rewrite_after_filter", "one_axis_reversed",
-                   "box_covers_total_extent",
+                   "box_covers_total_extent", "read_list_with_dataset_lacking_bounds",
                    "read_glob", "bounds_kw", "geometry_kw", "box_touches_partition_extent",
                    "box_disjoint_from_all", "partition_with_undefined_extent", "pruned_some",
                    "end_to_end_cx"]
@@ -75,13 +75,17 @@ def cases(tier, base_seed):
                           "reverse": rng.choice((0, 0, 0, 1, 2, 3))})   # bit0: x ends, bit1: y ends
         rewrite = {"mod": rng.choice((2, 3)), "rem": rng.randint(0, 1)} \
             if rng.random() < 0.35 else None
+        plain = None
+        if rng.random() < 0.25:
+            plain = {"rows": sorted(rng.sample(range(n), rng.randint(1, min(n, 6)))),
+                     "first": rng.random() < 0.5, "box": gen.gen_box(rng)}
         sim = e1.gen_sim_cfg(rng)
         if writes[0]["writer"] == "pack" and rng.random() < 0.4:
             # concurrent concat tasks of the pack writer under line-level pre-emption
             sim.update({"fine": True, "workers": rng.choice((2, 4, 8)),
                         "strategy": rng.choice(("random", "pct"))})
         yield {"seed": seed, "frame": spec, "writes": writes, "reads": reads, "rewrite": rewrite,
-               "sim": sim, "store": e1.gen_store_cfg(rng)}
+               "plain": plain, "sim": sim, "store": e1.gen_store_cfg(rng)}
         i += 1
 
 
@@ -206,6 +210,8 @@ def _drive(case, root, fs, probes, sig):
                           "cols": list(df.columns)})
         stored["ds_2"] = parts
     first_geo = next(c for c in spec["order"] if c in geo)
+    if case.get("plain") and "ds_0" in stored:
+        _plain_mixed_read(case, spec, geo, base, fs, stored, first_geo, probes, sig)
     for r in case["reads"]:
         pick = r["ds"] if r["ds"] in stored else sorted(stored)[0]
         if "ds_2" in stored and r["pick"] % 3 == 0:
@@ -314,6 +320,50 @@ def _drive(case, root, fs, probes, sig):
                           f"{list((w - g).elements())[:2]} extra={list((g - w).elements())[:2]}")
 
 
+def _plain_mixed_read(case, spec, geo, base, fs, stored, first_geo, probes, sig):
+    """A dataset WITHOUT stored bounds (a plain pandas to_parquet file) read together with one
+    that has them: no stored bounds can be used then, so the public partition bounds must be
+    computed from the data and still describe every loaded partition, and cx must lose no row."""
+    from spatialpandas.io import read_parquet_dask, to_parquet
+    rows = case["plain"]["rows"]
+    gdf = gen.build_frame(spec, rows)
+    if len(gdf) == 0:
+        return
+    ppath = os.path.join(base, "plain.parquet")
+    _guard("to_parquet (pandas)", lambda: to_parquet(gdf, ppath, filesystem=fs), sig)
+    pvals = {c: models.array_values(gdf[c].array) for c in geo}
+    precs = models.frame_records(gdf, with_index=False)
+    parts0 = stored["ds_0"]
+    first = case["plain"]["first"]
+    arg = [ppath, os.path.join(base, "ds_0")] if first else [os.path.join(base, "ds_0"), ppath]
+    plain = {"vals": pvals, "recs": precs}
+    parts = ([plain] + parts0) if first else (parts0 + [plain])
+    sig["how"] = "list_with_plain_file"
+    probes["read_list_with_dataset_lacking_bounds"] = 1
+    ddf = _guard("read_parquet_dask([with and without stored bounds])",
+                 lambda: read_parquet_dask(arg, filesystem=fs), sig)
+    if ddf.npartitions != len(parts):
+        raise Bad("partition-count", f"{ddf.npartitions} partitions loaded, {len(parts)} stored")
+    exts = [_extent(geo[first_geo], p["vals"][first_geo]) for p in parts]
+    pub = _guard("partition_bounds", lambda: ddf.geometry.partition_bounds[
+        ["x0", "y0", "x1", "y1"]].values.tolist(), sig)
+    if len(pub) != len(exts) or any(not models.bounds_equal(tuple(a), b)
+                                    for a, b in zip(pub, exts)):
+        raise Bad("bounds-mismatch@mixed-metadata", f"partition_bounds {pub} != true extents {exts}")
+    box = case["plain"]["box"]
+    if box[2] > box[0] and box[3] > box[1]:
+        sel = _guard("cx", lambda: ddf.cx[box[0]:box[2], box[1]:box[3]].compute(), sig)
+        g = Counter(models.frame_records(sel[list(gdf.columns)], with_index=False))
+        w = Counter()
+        for p in parts:
+            for v, rec in zip(p["vals"][first_geo], p["recs"]):
+                if models.intersects_box(geo[first_geo], v, box):
+                    w[rec] += 1
+        if g != w:
+            raise Bad("cx-rows@mixed-metadata", f"cx[{box}] on a read mixing datasets with and "
+                      f"without stored bounds: {sum(g.values())} rows, model {sum(w.values())}")
+
+
 def _check_bounds(ddf, exts, idxs, what, sig):
     pb = getattr(ddf, "_partition_bounds", None) or {}
     for col, e in exts.items():
@@ -362,6 +412,10 @@ def shrink_candidates(case):
     if c.get("rewrite"):
         d = copy.deepcopy(c)
         d["rewrite"] = None
+        yield d
+    if c.get("plain"):
+        d = copy.deepcopy(c)
+        d["plain"] = None
         yield d
     if len(c["writes"]) > 1:
         d = copy.deepcopy(c)
